@@ -27,22 +27,22 @@ func genTTL(rt *rapid.T) uint32 {
 // identifies the one scripted message it came from. Poison addresses (66.0.0.0/8, bad0::/16)
 // are put into messages that must never be used.
 type addrGen struct {
-	scope byte
+	scope byte // 0..15
 	n     uint32
 }
 
 func (g *addrGen) v4(poison bool) netip.Addr {
-	g.n++
+	g.n++ // up to 2^20 addresses per scope (large responses carry thousands)
 	first := byte(10)
 	if poison {
 		first = 66
 	}
-	return netip.AddrFrom4([4]byte{first, g.scope, byte(g.n >> 8), byte(g.n)})
+	return netip.AddrFrom4([4]byte{first, g.scope<<4 | byte(g.n>>16)&0xF, byte(g.n >> 8), byte(g.n)})
 }
 
 func (g *addrGen) v6(poison bool) netip.Addr {
 	g.n++
-	b := [16]byte{0: 0xfd, 1: 0x00, 13: g.scope, 14: byte(g.n >> 8), 15: byte(g.n)}
+	b := [16]byte{0: 0xfd, 1: 0x00, 12: g.scope, 13: byte(g.n >> 16), 14: byte(g.n >> 8), 15: byte(g.n)}
 	if poison {
 		b[0], b[1] = 0xba, 0xd0
 	}
@@ -144,6 +144,74 @@ func genMsg(rt *rapid.T, fam int, ag *addrGen, poison bool, rk int) wmsg {
 	return m
 }
 
+// bigTargets are message sizes (bytes, without the TCP length prefix) around the classic limits:
+// 512 (plain UDP), 1232 (the EDNS size the resolver advertises) and 1234 (that plus the TCP
+// length prefix), 4096 and 16384 (common buffer sizes), 65535 (largest DNS-over-TCP message).
+var bigTargets = []int{512, 1232, 1234, 4096, 16384, 65535}
+
+func bigClass(size int) string {
+	switch {
+	case size >= 65000:
+		return "tcp-response>=65000B"
+	case size > 16384:
+		return "tcp-response>16384B"
+	case size > 4096:
+		return "tcp-response>4096B"
+	case size > 1234:
+		return "tcp-response>1234B"
+	case size > 512:
+		return "tcp-response>512B"
+	}
+	return "tcp-response<=512B"
+}
+
+// genBigMsg draws a well-formed answer with as many address records as fit into a target size
+// (43+ AAAA or 75+ A records are beyond 1232 bytes) and pads it to exactly that size.
+func genBigMsg(rt *rapid.T, fam int, ag *addrGen, poison bool) wmsg {
+	opt := rapid.Bool().Draw(rt, "opt")
+	target := rapid.SampledFrom(bigTargets).Draw(rt, "bigTarget") + rapid.SampledFrom([]int{-1, 0, 0, 1, 2, 3, 40}).Draw(rt, "bigDelta")
+	m := genBigFixed(fam, min(target, 65535), opt, ag)
+	ttl := genTTL(rt)
+	m.PadTTL = ttl
+	for i := range m.Answers {
+		m.Answers[i].TTL = ttl
+		if poison {
+			if fam == 6 {
+				m.Answers[i].Addr = ag.v6(true)
+			} else {
+				m.Answers[i].Addr = ag.v4(true)
+			}
+		}
+	}
+	return m
+}
+
+// genBigFixed builds the large answer for a given exact size.
+func genBigFixed(fam, target int, opt bool, ag *addrGen) wmsg {
+	const poison = false
+	var ttl uint32 = 3600
+	m := wmsg{QR: true, RA: true, RD: true, OPT: opt}
+	m.PadTo, m.PadTTL = target, ttl
+	rrSize := 16
+	if fam == 6 {
+		rrSize = 28
+	}
+	// header 12 + question (name <= 24 bytes encoded + 4) + OPT 11 + at least 13 for the padding record
+	n := max(1, (target-12-28-11-13-rrSize)/rrSize)
+	m.Answers = make([]rr, 0, n)
+	for range n {
+		r := rr{Type: tA, TTL: ttl}
+		if fam == 6 {
+			r.Type = tAAAA
+			r.Addr = ag.v6(poison)
+		} else {
+			r.Addr = ag.v4(poison)
+		}
+		m.Answers = append(m.Answers, r)
+	}
+	return m
+}
+
 func genRespKind(rt *rapid.T) int {
 	return rapid.SampledFrom([]int{rkValid, rkValid, rkValid, rkValid, rkValid, rkValid, rkValid, rkValid, rkValid, rkValid, rkValid,
 		rkNoDataSOA, rkNoDataSOA, rkNoData, rkNXSOA, rkNXSOA, rkNX, rkFail, rkFail, rkCNAMEOnlySOA, rkTruncated, rkTruncated}).Draw(rt, "respKind")
@@ -157,6 +225,14 @@ func genDelay(rt *rapid.T) int64 {
 }
 
 func genGood(rt *rapid.T, fam int, ag *addrGen) item {
+	if rapid.IntRange(0, 15).Draw(rt, "big") == 11 {
+		m := genBigMsg(rt, fam, ag, false)
+		rk := rkValid
+		if rapid.IntRange(0, 5).Draw(rt, "bigTC") == 0 {
+			m.TC, rk = true, rkTruncated // a 64 KiB answer that is itself truncated is used as it is
+		}
+		return item{Kind: kResp, Fam: fam, Msg: m, RK: rk, DelayMs: genDelay(rt)}
+	}
 	rk := genRespKind(rt)
 	return item{Kind: kResp, Fam: fam, Msg: genMsg(rt, fam, ag, false, rk), RK: rk, DelayMs: genDelay(rt)}
 }
